@@ -64,7 +64,7 @@ def identify(payload):
 
 
 EXC_KINDS = ('runtime', 'runtime', 'value', 'conn-refused', 'broken-pipe', 'timeout-noargs', 'key', 'lookup', 'bare',
-             'not-implemented', 'os')
+             'not-implemented', 'os', 'protocol-error-without-message')
 
 
 def app_exception(world, msg):
@@ -89,6 +89,10 @@ def app_exception(world, msg):
         return NotImplementedError(msg)
     if kind == 'os':
         return OSError(5, msg)
+    if kind == 'protocol-error-without-message':
+        from rsocket.exceptions import RSocketProtocolError
+        from rsocket.error_codes import ErrorCode
+        return RSocketProtocolError(ErrorCode.REJECTED)
     return RuntimeError(msg)
 
 
